@@ -36,8 +36,8 @@ def engine(ck, pid, kinds, n_quick=40, n_thorough=400, gen_kw=None, mc=True):
     if mc:
         # (A) the design as implemented: all invariants on every reachable state of the small instances
         small = dict(maxops=1) if not ck.thorough else dict(maxops=2)
-        r = ck.tlc("MC_ChordKV", ringlib.mc_cfg(CODE_FIXPRED, CODE_FIXLEAVE, CODE_FIXWRAP, **small), allow_error=True, timeout=1500,
-                   workers=min(vf.NCPU, 12))
+        r = ck.tlc("MC_ChordKV", ringlib.mc_cfg(CODE_FIXPRED, CODE_FIXLEAVE, CODE_FIXWRAP, **small), allow_error=True,
+                   timeout=6000 if ck.thorough else 1500, workers=min(vf.NCPU, 12))      # (thorough: 9-11 M states; minutes on a quiet machine, much longer on a loaded one)
         if r.error:
             # a design-level counterexample is only a lead: replay it on the real code
             sc = ringlib.cex_to_scenario(ringlib.cex_states(r.trace_json), "mc-cex-%s" % r.error["name"])
